@@ -72,7 +72,7 @@ def main():
                           signature={'kind': 'obligation'}, no_failing_input=True)
         ctx.write_evidence()
         print('%s tier=%s seed=%d evaluations=%d distinct_nontrivial=%d theorems=%d/%d violations=%d known=%d wall=%.1fs' % (
-            prop, args.tier, seed, ctx.evaluations, len(ctx.nontrivial), len(ctx.discharged), len(ctx.theorems),
+            prop, args.tier, seed, ctx.evaluations, len(ctx.nontrivial) + ctx.extra_nontrivial, len(ctx.discharged), len(ctx.theorems),
             ctx.violations, len(ctx.known_hits), __import__('time').time() - ctx.t0))
         sys.exit(1 if ctx.violations else 0)
     except core.MachineryError as e:
